@@ -39,8 +39,13 @@ except Exception as e:
 val = lambda t, e: (lambda x: int(x.to_bits()) if hasattr(x, 'to_bits') else int(x))(eval(e, {'s': t}))
 if pair:
   a, b = pair
-  if not a.lstrip('-').isdigit() and not b.lstrip('-').isdigit() and val(top, a) != val(top, b):
+  isk = lambda t: t.lstrip('-').isdigit()
+  if not isk(a) and not isk(b) and val(top, a) != val(top, b):
     reproduced(f"{name} variant {vi}: connect({a}, {b}) but after evaluation {a} = {val(top, a):#x}, {b} = {val(top, b):#x} (inputs {state})")
+  if isk(a) != isk(b):
+    k, e = (a, b) if isk(a) else (b, a)
+    if val(top, e) != int(k):
+      reproduced(f"{name} variant {vi}: connect({e}, {k}) but after evaluation {e} = {val(top, e):#x} (inputs {state})")
 ref = run(ref_vi)
 from pymtl3.dsl import OutPort
 for sig in sorted(ref._dsl.all_signals, key=repr):
